@@ -166,6 +166,20 @@ static ThreadContext* bk_init_context(uint32_t i, size_t pos = 0)
   return tc;
 }
 
+// typed static storage for the transit rings (reads of event fields then fold to constants in symbolic execution; an
+// untyped new[] block makes every field read a byte-extract the simplifier cannot resolve).  The block the real constructor
+// allocated is dropped; valid while the ring never expands (harnesses that use it forbid / never reach _expand).
+#ifndef BK_NO_STATIC_RING
+union TeRing { TransitEvent e[TEBCAP]; TeRing() {} ~TeRing() {} };
+static TeRing g_ring0, g_ring1, g_ring2;
+static void bk_static_ring(uint32_t i)
+{
+  TransitEvent* base = i == 0 ? g_ring0.e : i == 1 ? g_ring1.e : g_ring2.e;
+  for (uint32_t k = 0; k < TEBCAP; k++) new (&base[k]) TransitEvent();
+  *reinterpret_cast<TransitEvent**>(&teb_at(i)->_storage) = base;
+}
+#endif
+
 static constexpr MacroMetadata MD_LOG{"f.cpp:1", "fn", "m", nullptr, LogLevel::Info, MacroMetadata::Event::Log};
 static constexpr MacroMetadata MD_FLUSH{"", "", "", nullptr, LogLevel::Critical, MacroMetadata::Event::Flush};
 
